@@ -301,6 +301,15 @@ def _sorted(ex, st, pos, kw, node, star):
     v = ops.deref(st, pos[0])
     if isinstance(v, (VSeq, VTuple)) and getattr(v, "items", None) is not None and len(v.items) <= 1:
         return [(st, st.alloc(HeapObj("cell", val=v)))]
+    if isinstance(v, VOpt) and isinstance(v.kind.inner, SetOf):
+        # sorted(None) raises TypeError: that it cannot happen on this path is an obligation of its own
+        ex.ctx.oblige(f"{ex.unit_name()}/no-TypeError/L{node.lineno}:sorted-of-None", st, z3.Not(v.is_none()), "no-raise", node.lineno)
+        st.assume(z3.Not(v.is_none()))
+        return _list(ex, st, [v.get()], kw, node, star)
+    if isinstance(v, (VSet, VEmptySet)) and len(pos) == 1 and not kw:
+        # sorted(a set): a duplicate-free enumeration of the set; WHICH order is abstracted (any order), so nothing
+        # proved about the result relies on the sorting itself
+        return _list(ex, st, pos, kw, node, star)
     raise Unsupported("sorted() of symbolic collection")
 
 
